@@ -40,7 +40,7 @@ func vScenarioC14(rc *runCtx) {
 		}
 	}
 	cfg.fork = false
-	cfg.timeout = []int{5, 20}[tp.Draw("c14.timeout", 2)]
+	cfg.timeout = []int{5, 20, 0, 60}[tp.Pick("c14.timeout", 3, 3, 1, 1)] // 0: the user asked never to time out
 	cfg.trigVersion = ""
 	cfg.protocol = 0
 	if cfg.srvTmux != "" || strings.Contains(strings.Join(cfg.relayTmux, ","), "normal") {
